@@ -1,6 +1,6 @@
 """C38 probes: data objects whose template-visible operations (call, __next__,
-attribute, item, __str__, __html__, __iter__, __len__, __bool__, and the async
-counterparts) report to one per-run ``Events`` counter that raises the run's
+attribute, item, __str__, __html__, __format__, __mod__ of lazily translated
+messages, __iter__, __len__, __bool__, and the async counterparts) report to one per-run ``Events`` counter that raises the run's
 private ``Boom`` instance at exactly the k-th event."""
 from __future__ import annotations
 
@@ -48,6 +48,19 @@ class Events:
             raise self.boom
 
 
+class EvProxy:
+    """Event sink for probes that outlive one run (environment globals, the
+    installed gettext callables): forwards to the Events of the run in
+    progress; outside a run (template compilation) nothing is an event."""
+
+    def __init__(self):
+        self.cur = None
+
+    def hit(self, kind, cap=False):
+        if self.cur is not None:
+            self.cur.hit(kind, cap)
+
+
 class PRec:
     """Record: attributes, items, str()."""
 
@@ -92,6 +105,69 @@ class PStr:
 
     def __repr__(self):
         return "<PStr %s>" % self._s
+
+
+class PFmt:
+    """String conversion through the format protocol: ``'{}'.format(p)`` /
+    ``format(p)`` hit __format__, ``'%s' % p`` / ``str(p)`` hit __str__."""
+
+    def __init__(self, ev, s):
+        self._ev, self._s = ev, s
+
+    def __format__(self, spec):
+        self._ev.hit("format")
+        return format(self._s, spec)
+
+    def __str__(self):
+        self._ev.hit("str")
+        return self._s
+
+    def __repr__(self):
+        return "<PFmt %s>" % self._s
+
+
+class PLazy:
+    """A lazily translated message as returned by the gettext callables of
+    several frameworks: not a str; supports ``%`` and str()."""
+
+    def __init__(self, ev, s):
+        self._ev, self._s = ev, s
+
+    def __mod__(self, other):
+        self._ev.hit("mod")
+        return self._s % other
+
+    def __str__(self):
+        self._ev.hit("str")
+        return self._s
+
+    def __repr__(self):
+        return "<PLazy %s>" % self._s
+
+
+def make_gettext(ev, lazy):
+    """-> (gettext, ngettext, pgettext, npgettext): harness-side translation
+    callables (every call is a data event; placeholders are kept intact)."""
+    def wrap(msg):
+        return PLazy(ev, msg) if lazy else msg
+
+    def gettext(s):
+        ev.hit("gettext")
+        return wrap("\u00ab" + s + "\u00bb")
+
+    def ngettext(s, p, n):
+        ev.hit("gettext")
+        return wrap("\u00ab" + (s if n == 1 else p) + "\u00bb")
+
+    def pgettext(c, s):
+        ev.hit("gettext")
+        return wrap("\u00ab" + c + ":" + s + "\u00bb")
+
+    def npgettext(c, s, p, n):
+        ev.hit("gettext")
+        return wrap("\u00ab" + c + ":" + (s if n == 1 else p) + "\u00bb")
+
+    return gettext, ngettext, pgettext, npgettext
 
 
 class PCall:
@@ -240,11 +316,29 @@ def build(recipe, ev, is_async):
         "it": PIter(ev, r["it"]), "itl": PIterLen(ev, r["itl"]), "s": PStr(ev, r["s"]),
         "h": PHtml(ev, {}, {}, r["h"]), "b": PBool(ev, r["bv"]), "nb": PBool(ev, not r["bv"]),
         "cap": PCap(ev, r["cap"]), "capit": PCapIter(ev, r["cap"]),
+        "fm": PFmt(ev, r["d"] + r["s"]),
     }
     if is_async:
         v["afn"] = PACall(ev, r["fn"] + "~")
         v["ait"] = PAIter(ev, r["it"])
     return v
+
+
+def build_globals(recipe, proxy, is_async):
+    """Probes reachable WITHOUT a render context (environment globals): the only
+    data the body of a template imported / included without context can touch.
+    Bound to an EvProxy, so they report to whichever run is in progress."""
+    r = recipe
+    g = {
+        "g_fn": PCall(proxy, r["fn"]),
+        "g_rec": PRec(proxy, {"a": r["a"], "b": r["b"], "c": r["c"]}, {"k": r["k"]},
+                      "grec" + r["b"]),
+        "g_s": PStr(proxy, r["s"]), "g_it": PIter(proxy, r["it"]),
+        "g_b": PBool(proxy, r["bv"]),
+    }
+    if is_async:
+        g["g_afn"] = PACall(proxy, r["fn"] + "^")
+    return g
 
 
 def gen_recipe(rng):
